@@ -37,8 +37,17 @@ RULES = {
     "C12-O1": "contains_point is lo <= pt < hi component-wise, do_intersect is `overlap extent >= 0 on every axis` (all orderings of the corners, "
               "dimensions 1-3), sign / sign0 are the documented piecewise constants, principal_angle / angle_diff are congruent modulo 2*pi "
               "and land in [-pi, pi], roots(c, n) raised to n give back the (unit) input",
-    "C12-R1": "rotate_2d and rotate_around_axis agree with the rotation matrix / Rodrigues' formula on integer and float vectors (isometry, axis "
-              "fixed, angles add up), axis_rot_from_z maps the z axis onto its argument",
+    "C12-R1": "rotations. EXACT clauses (symbolic evaluation, msa/rules/hh_sym.py: the function is evaluated once on a symbolic input vector, an angle "
+              "whose cosine / sine are atoms C, S and a unit axis (U, V, W); the matrix of the map is read off the returned polynomials and decided on "
+              "normal forms modulo C^2 + S^2 = 1 and U^2 + V^2 + W^2 = 1, for ALL angles, axes and input vectors on the generic branch): rotate_2d has "
+              "the matrix [[C, -S], [S, C]]; rotate_around_axis satisfies R^T R = I, det R = 1, R axis = axis and R = Rodrigues' matrix (hence "
+              "trace 1 + 2C, the sense of rotation, and additivity of angles about a fixed axis); cos / sin of the half angle are read too (everything "
+              "is then expressed in the half-angle atoms). When the function has a shape the symbolic "
+              "evaluation cannot read (non-polynomial steps, external libraries) the exact clause alone is undecided. TABLE-BASED clauses (finite-model "
+              "evaluation on sampled angles / axes / vectors, a witness input is reported): agreement of rotate_2d / rotate_around_axis with the "
+              "reference rotation on float AND integer-typed vectors and non-unit axes (dtype truncation, normalisation of the axis), the early-return "
+              "branch (angle 0), the axis is fixed, two successive rotations add their angles, axis_rot_from_z maps the z axis onto its argument "
+              "(no exact clause: it goes through atan2 and a normalisation)",
     "C12-X1": "closed-form primitives of geometry.py and vector.py: cross / det_2x2 / det_3x3 against exact integer arithmetic, norms, areas, "
               "three-point angles in [0, pi] and symmetric, signed angles antisymmetric, cotan = 1 / tan(angle), right-handed orthonormal face_basis, "
               "equidistant circumcenter, aspect ratio, line / segment / plane helpers",
@@ -116,6 +125,14 @@ LAWS = [
 ]
 
 
+#: exact (symbolic) clauses: (rule, module, anchor function, construct text of a finding, clause evaluator)
+EXACT = [
+    ("C12-R1", ROT, "rotate_2d", "rotate_2d: exact clause - the matrix of the map is not [[cos, -sin], [sin, cos]] identically", L.exact_rotate_2d),
+    ("C12-R1", ROT, "rotate_around_axis", "rotate_around_axis: exact clause - the matrix of the map is not the rotation of (unit axis, angle) identically",
+     L.exact_rotate_axis),
+]
+
+
 def run(ctx):
     fr = alias.Freshness(ctx.repo)
     ma = alias.MayAlias(ctx.repo, fr)
@@ -123,6 +140,22 @@ def run(ctx):
     a1_param_immutability(ctx, ma)
     a2_borrowed_fields(ctx, ma)
     evaluate_laws(ctx)
+    evaluate_exact(ctx)
+
+
+def evaluate_exact(ctx):
+    strict = {"mouette." + m for m in MODS}
+    for rule, modname, qual, construct, clause in EXACT:
+        fn = ctx.repo.func(modname, qual)
+        site = ctx.site(modname, fn)
+        verdict, text = clause(L.T(ctx.repo, strict))
+        if verdict == "ok":
+            ctx.ok(rule, site, f"{qual}: exact clause - {text}")
+        elif verdict == "fail":
+            ctx.fail(rule, site, construct, "decided on the polynomials the function returns for a symbolic input (all angles / axes / vectors on the "
+                                            "generic branch), modulo cos^2 + sin^2 = 1 and |axis| = 1: " + text)
+        else:
+            ctx.undecided(rule, site, f"{qual}: the exact clause cannot be read (the table-based clauses of the rule are decided separately)", text)
 
 
 # ---------------------------------------------------------------------------- evaluated laws
@@ -361,8 +394,8 @@ def e1_seterr(ctx):
             if bad:
                 node, _, why = bad[0]
                 ctx.fail("C12-E1", ctx.site(mod.name, fn, node), f"{q}: np.seterr is not restored on all exits",
-                         why + "; on success the caller's configuration is replaced, and when the guarded operation raises, "
-                               "'raise' stays installed for the rest of the process")
+                         why + "; on an exit that skips the restore (the guarded operation raises, or no restore at all) the changed "
+                               "mode stays installed for the rest of the process")
             elif und:
                 ctx.undecided("C12-E1", ctx.site(mod.name, fn, und[0][0]), f"{q}: np.seterr with a restore the rule cannot follow", und[0][2])
             else:
